@@ -12,7 +12,7 @@ CHECKS = {
          "Trusts the harness's raw-bytes Payload, libsodium/aws-lc for key derivation of generated keys, and that aws-lc/libsodium internal RNG values not reached by volume behave like those reached.",
          "property-based testing (proptest): round-trip + spec-length oracle, RNG-as-input", "DESIGN.md §5 C01"),
  "C05": ("pv-harness", "exploration",
-         "Generated-input search over wrap kinds, key kinds, passwords, KDF parameters and recipient pairs with a round-trip + fixed-length oracle; the rare RSA-KEM ciphertexts with leading zero bytes are constructed (scripted RNG draw r = c^d) rather than waited for.",
+         "Generated-input search over wrap kinds, key kinds, passwords, KDF parameters and recipient pairs with a round-trip + fixed-length oracle; the rare RSA-KEM ciphertexts with leading zero bytes are constructed (scripted RNG draw r = c^d) rather than waited for; related inputs (a key wrapped under itself, the key's bytes as password) are drawn on purpose.",
          "Trusts the committed RSA key pool and the bounded KDF parameter ranges; aws-lc/libsodium internal randomness is not scripted.",
          "property-based testing (proptest): round-trip + fixed-length oracle, scripted RNG draws", "DESIGN.md §5 C05"),
  "C02": ("pv-harness", "fault_enumeration",
@@ -20,7 +20,7 @@ CHECKS = {
          "Trusts FromStr as the entry path of mutants and the harness's byte-level reassembly (model base64).",
          "fault-injection enumeration over generated tokens (proptest-sampled), must-reject oracle with positive control", "DESIGN.md §5 C02"),
  "C06": ("pv-harness", "fault_enumeration",
-         "Fault enumeration over library-produced PIE/PBKW/PKE blobs: every bit, every length change, header relabels, other keys/passwords/recipients; unwrap must fail for every mutant and the control must return the original key.",
+         "Fault enumeration over library-produced PIE/PBKW/PKE blobs: every bit, every length change, header relabels, other keys/passwords/recipients; unwrap must fail for every mutant and the control must return the original key; paseto-v1: k1.seal blobs computed from public data alone (c >= n, every guess of r) never unseal.",
          "PBKW mutants whose mutated cost field exceeds the stated budget are skipped (counted); v1 k1.seal bits are sampled in the quick tier because each costs an RSA-4096 private operation. HMAC-equivalent passwords (zero-padding) are not 'other' passwords.",
          "fault-injection enumeration over generated wrapped keys, must-reject oracle with positive control", "DESIGN.md §5 C06"),
  "C12": ("pv-harness", "fault_enumeration",
@@ -44,7 +44,7 @@ CHECKS = {
          "Trusts aws-lc SHA-384 / libsodium BLAKE2b as reference digests.",
          "property-based differential testing (proptest) against a reference digest", "DESIGN.md §5 C13"),
  "C15": ("pv-harness", "exploration",
-         "Generated piece lists (0..8 pieces, 0..4 fragments, lengths 0..600): output equals the reference PAE, parses back to the same list (injectivity), streaming writers see the same bytes, boundary shifts always change the output.",
+         "Generated piece lists (0..8 pieces, 0..4 fragments, lengths 0..600): output equals the reference PAE, parses back to the same list (injectivity), streaming writers see the same bytes, boundary shifts always change the output; end to end on every back end no other split of footer || assertion is accepted for a sealed token.",
          "The back ends' private digest/MAC/signature writer adapters are driven through tokens whose pieces have every length 0..700, with and without a payload-encoding suffix, and compared with the reference MAC / signature over the reference PAE.",
          "property-based testing (proptest): reference encoder + inverse parser", "DESIGN.md §5 C15"),
  "C09": ("pv-harness", "exploration",
@@ -64,11 +64,11 @@ CHECKS = {
          "Trusts serde_json::Value as the generic parser; leap seconds are not generated.",
          "property-based round-trip + differential testing (proptest) against a generic JSON parser", "DESIGN.md §5 C14"),
  "C04": ("pv-harness", "exploration",
-         "Structured generated-input search offered to every parser of every back end with follow-up use of whatever parses, in child processes (panic = violation keyed by source location; dead process = violation); enumerates every decoded length 0..700 under every header and the key-shape catalogue; authentic tokens carrying hostile message / footer bytes are read through every typed payload / footer pair; thorough adds coverage-guided libFuzzer + AddressSanitizer campaigns over the same entry function.",
+         "Structured generated-input search offered to every parser of every back end with follow-up use of whatever parses, in child processes (panic = violation keyed by source location; dead process = violation); enumerates every decoded length 0..700 under every header and the key-shape catalogue; authentic tokens carrying hostile message / footer bytes are read through every typed payload / footer pair; a case that consumes 60 s of CPU without returning, and again when executed alone in a fresh process, is a violation (anything less clear is inconclusive); thorough adds coverage-guided libFuzzer + AddressSanitizer campaigns over the same entry function.",
          "PBKW inputs beyond the stated KDF budget are skipped (counted). aws-lc and libsodium are uninstrumented C in the quick tier; the fuzz build adds ASan to the Rust side and the FFI boundary.",
          "property-based testing (proptest) + enumeration in isolated child processes; coverage-guided fuzzing (libFuzzer+ASan) in the thorough tier", "DESIGN.md §5 C04"),
  "C16": ("pv-harness", "fault_enumeration",
-         "Histories of identical operations with set-based uniqueness of every fresh field and (getrandom back ends) a draw log proving the field is the prescribed function of freshly drawn bytes; fault enumeration over every (operation kind x RNG draw index x partial fill): must return Err, produce nothing, and leave the next operation working.",
+         "Histories of identical operations with set-based uniqueness of every fresh field and (getrandom back ends) a draw log proving the field is the prescribed function of freshly drawn bytes; fault enumeration over every (operation kind x RNG draw index x partial fill x error kind {internal, custom, EIO, EAGAIN, unsupported} x {one draw, every draw from there on}): must return Err, produce nothing, and leave the next operation working.",
          "aws-lc, libsodium and rsa::OsRng draw outside getrandom 0.3 and cannot be failed in-process: only the history part applies to them.",
          "stateful history checking + exhaustive RNG fault injection through a custom getrandom backend", "DESIGN.md §5 C16, §3.4"),
  "C17": ("pv-harness", "exploration",
@@ -76,11 +76,11 @@ CHECKS = {
          "Interleavings are sampled by the OS scheduler (stress, not enumeration). The thorough tier re-runs the plans in a ThreadSanitizer build (rustc -Zsanitizer=thread, -Zbuild-std): a race report with a frame in library code is a violation; aws-lc / libsodium C code is not instrumented.",
          "model-based stress testing of generated concurrent plans (proptest) with a sequential oracle; ThreadSanitizer build of the same plans in the thorough tier", "DESIGN.md §5 C17"),
  "C18": ("progs", "exploration",
-         "A generated catalogue (about 2500 programs: key crate x token crate x purpose x key kind x operation, printing/serialising probes, field access, coercions) with a type model predicting compile/reject, decided by rustc: every predicted-reject program must fail on its marked line, every well-typed twin must compile. The catalogue is enumerated completely.",
+         "A generated catalogue (about 3300 programs: key crate x token crate x purpose x key kind x operation, printing/serialising probes, field access, coercions, secret keys as footer / claims) with a type model predicting compile/reject, decided by rustc: every predicted-reject program must fail on its marked line, every well-typed twin must compile. The catalogue is enumerated completely.",
          "rustc is the ground truth; programs take the misused values as function parameters.",
          "generated-program testing: enumerated misuse catalogue with a type-model oracle, compiled with cargo check", "DESIGN.md §5 C18"),
  "C19": ("progs", "exploration",
-         "Every distinct closure of each crate's feature flags is built with cargo check (exhaustive); generated probe crates on reduced builds replay full-build fixtures through every available operation and their output is accepted by the full build and the reference model (seeded closures quick, all closures thorough).",
+         "Every distinct closure of each crate's feature flags is built with cargo check (exhaustive); generated probe crates on reduced builds replay full-build fixtures through every available operation and their output is accepted by the full build and the reference model, and their verdicts on a corpus of tokens, PASERK blobs and key texts (every key body under every header, parsed as every kind) equal the full build's (seeded closures quick, all closures thorough).",
          "cargo check decides 'builds'; the behaviour part samples closures in the quick tier. paseto-json with and without `claims` is compared differentially on a generated JSON corpus; paseto-core with/without `serde` is compiled only (it has no operation of its own that both builds share beyond what every back-end probe already exercises).",
          "configuration enumeration + generated probe programs, differential against the full build and the reference model", "DESIGN.md §5 C19"),
 }
